@@ -32,6 +32,9 @@ CHECKS = {
  "C12": ("exploration", "bounded-exhaustive hostile input generation from a scripted peer against the real server in child processes (crash = violation with the exact sequence from a cursor file), probe-after-sequence liveness oracle at final states, reference dispatcher for handler invocations and resets",
          "Every envelope sequence up to length 3 (quick) / 4 (thorough) over 25 shapes x 2 ids, plus field-level mutations and long random sequences, each against a fresh server connection: the process must survive, a following valid probe must be answered correctly, handler invocations and resets must match a reference dispatcher where timing-independent, and Serve must return when the connection ends.",
          "Exhaustive over the stated alphabet and lengths only; within a sequence the schedule is whatever the runtime produced.", "DESIGN.md 2/C12"),
+ "C13": ("exploration", "bounded-exhaustive hostile response generation from a scripted server against the real client in child processes (crash = violation with exact sequence), termination oracle at final states after the connection is closed, provenance oracle for every returned message",
+         "Every response sequence up to length 3/4 (2/3 for the other configurations) over 20 shapes x {call A, call B, unknown id}, with and without a stats handler, for unary+stream and stream+stream pairings, then the connection is closed: no crash, every operation (Invoke, Header, receive loop, Trailer - each in its own goroutine) has returned at the final state, every returned message is carried in order by an envelope addressed to that call, success only with data / a successful end addressed to the call.",
+         "Exhaustive over the stated alphabet and lengths only.", "DESIGN.md 2/C13"),
 }
 NOT_YET = "check not built yet in this round (runtime-monitoring design in DESIGN.md section 2); will be claimed once its monitor exists"
 
